@@ -29,6 +29,8 @@
 #include <sched.h>
 #include <sys/types.h>
 #include <sys/wait.h>
+#include <poll.h>
+#include <signal.h>
 #include <unistd.h>
 
 namespace verif {
@@ -473,6 +475,38 @@ private:
                 acc.outcomes.size(), exhaustive ? "true" : "false", (long long)newViol, (long long)knownViol, elapsed());
     }
 };
+
+// Run `sh -c cmd` (stdout+stderr captured) and watch its OUTPUT for progress instead of imposing a wall-clock limit: the command is
+// killed only if it prints nothing for idleLimitSec seconds.  A free-running pass on a heavily loaded machine is slow but keeps
+// printing its progress lines; a deadlock or lost wake-up prints nothing.  Returns the wait status (or -1); hung=true if killed for silence.
+inline int runWatched(const std::string& cmd, int idleLimitSec, std::string& out, bool& hung) {
+    hung = false; out.clear();
+    int fd[2]; if (pipe(fd) != 0) return -1;
+    fflush(stdout); fflush(stderr);
+    pid_t p = fork();
+    if (p < 0) { close(fd[0]); close(fd[1]); return -1; }
+    if (p == 0) {
+        setpgid(0, 0);
+        dup2(fd[1], 1); dup2(fd[1], 2); close(fd[0]); close(fd[1]);
+        execl("/bin/sh", "sh", "-c", cmd.c_str(), (char*)nullptr);
+        _exit(127);
+    }
+    setpgid(p, p);
+    close(fd[1]);
+    char buf[8192];
+    for (;;) {
+        struct pollfd pf; pf.fd = fd[0]; pf.events = POLLIN; pf.revents = 0;
+        int r = poll(&pf, 1, idleLimitSec * 1000);
+        if (r < 0) { if (errno == EINTR) continue; break; }
+        if (r == 0) { hung = true; kill(-p, SIGKILL); kill(p, SIGKILL); break; }
+        ssize_t n = read(fd[0], buf, sizeof buf);
+        if (n <= 0) break;
+        if (out.size() < (size_t)64 << 20) out.append(buf, (size_t)n);
+    }
+    close(fd[0]);
+    int st = 0; waitpid(p, &st, 0);
+    return st;
+}
 
 }  // namespace verif
 #endif
